@@ -1,4 +1,7 @@
 import VecModel.Lemmas.Sparse
+import VecModel.Lemmas.BPE
+import VecModel.Props.C06
+import VecModel.Props.C16
 /-
   C01 — transform returns one row per input item in the fitted column space.
   Generic part: every row-producing vectorizer's `transform` is an instance of
@@ -96,3 +99,58 @@ example :
   decide
 
 end VecModel.Sparse
+
+
+/-! ### The vectorizer-specific instances
+
+Proved with their models in Props/C06 and Props/C16 and restated here as obligations of C01, so that
+"one row per item, fitted width, unseen vocabulary ignored, never raises" is discharged for every
+row-producing vectorizer whose glue is modelled. -/
+namespace VecModel.C01
+
+/-- NgramVectorizer.transform: total on a well-formed fitted model, one row per document, fitted width -/
+theorem ngram_fitted_column_space (m : Ngram.Fitted) (h : Ngram.WF m) (X : List (List Int)) :
+    ∃ M, Ngram.transform m X = .ok M ∧ M.nRows = X.length ∧ M.nCols = m.colLabel.length :=
+  let ⟨M, h1, h2, h3, _⟩ := C06.ngram_transform_shape m h X
+  ⟨M, h1, h2, h3⟩
+
+/-- SkipgramVectorizer.transform: one row per document, exactly the columns kept at fit -/
+theorem skipgram_fitted_column_space (m : Skipgram.Fitted) (h : Skipgram.WF m) (κ : Nat → Rat)
+    (X : List (List Int)) :
+    ∃ M, Skipgram.transform m κ X = .ok M ∧ M.nRows = X.length ∧
+      M.nCols = (Counts.keptCols m.mask).length :=
+  C06.skipgram_transform_shape m h κ X
+
+/-- EdgeListVectorizer.transform: the fitted shape whatever labels the edge list contains or lacks -/
+theorem edgelist_fitted_shape (m : EdgeList.Fitted) (hr : m.rowDict ≠ []) (hc : m.colDict ≠ [])
+    (E : List EdgeList.Edge) :
+    ∃ M, EdgeList.transform m E = .ok M ∧ M.nRows = Counts.maxPlus1 (m.rowDict.map (·.2)) ∧
+      M.nCols = Counts.maxPlus1 (m.colDict.map (·.2)) :=
+  C06.edgelist_transform_shape m hr hc E
+
+/-- LZCompressionVectorizer.transform: one row per string, every column below the fitted width, phrases
+without a fitted column dropped -/
+theorem lz_fitted_column_space {κ : Type} [DecidableEq κ] (h : List Nat → κ) (cap : Nat)
+    (base cols : LZ.Dict κ) (Y : List (List Nat)) (hok : LZ.ColsOK cols) :
+    ∃ rows, LZ.transform h cap base cols Y = .ok rows ∧ rows.length = Y.length ∧
+      ∀ (i : Nat) (_ : i < Y.length), ∃ row, rows[i]? = some row ∧ ∀ cv ∈ row, cv.1 < cols.length := by
+  obtain ⟨rows, h1, h2, h3⟩ := LZ.transform_unseen h cap base cols Y hok
+  refine ⟨rows, h1, h2, ?_⟩
+  intro i hi
+  obtain ⟨row, r1, _, _, r4⟩ := h3 i hi
+  exact ⟨row, r1, r4⟩
+
+/-- BytePairEncodingVectorizer 'matrix' output: one count per fitted column, codes without a column
+(unseen characters, code 0) contribute nothing -/
+theorem bpe_matrix_row_width (cols : List Int) (enc : List Int) :
+    (BPE.countRow cols enc).length = cols.length ∧
+    ∀ extra, (∀ c ∈ cols, c ∉ extra) → BPE.countRow cols (enc ++ extra) = BPE.countRow cols enc := by
+  refine ⟨by simp [BPE.countRow], ?_⟩
+  intro extra hex
+  unfold BPE.countRow
+  apply List.map_congr_left
+  intro c hc
+  have : extra.count c = 0 := List.count_eq_zero.mpr (hex c hc)
+  simp [List.count_append, this]
+
+end VecModel.C01
